@@ -990,6 +990,10 @@ class ExcelCompiler:
         iterations = iterations or self.cycles['iterations'] or 10000
         tolerance = tolerance or self.cycles['tolerance'] or 0.01
 
+        if list_like(address) and not isinstance(address, (tuple, list)):
+            # a generator would be used up by the first pass
+            address = tuple(address)
+
         progress_tracker = iterative_eval_tracker(iterations, tolerance)
         while True:
             progress_tracker.inc_iteration_number()
